@@ -160,6 +160,13 @@ func (m *c13Model) check(r *Run, c *bridgeChecks, s *Step, o *Outcome) []Violati
 			pen := prev.GetSlashAmount(pre.Params.SlashFraction)
 			mo := m.get(ch.Name, ob)
 			mo.Stake = mo.Stake.Add(t.Tx.A.SdkInt("amount")).Sub(pen)
+			if solo {
+				// what leaves the oracle's own account is exactly what the message names (penalty included in it)
+				debit := m.balPre[ob].AmountOf("FX").Sub(w.App.BankKeeper.GetBalance(ctx, w.KeyByName(t.Tx.S).Acc(), "FX").Amount)
+				if !debit.Equal(t.Tx.A.SdkInt("amount")) {
+					vs = append(vs, viol("stake-accounting", "add-delegate/wallet-debit-differs", "%s: %s added %s (outstanding penalty %s): its account was debited %s", ch.Name, t.Tx.S, t.Tx.A.SdkInt("amount"), pen, debit))
+				}
+			}
 			if pen.IsPositive() {
 				r.Probe("penalty-paid-by-add-delegate")
 				if solo && !m.supplyPre.Sub(w.App.BankKeeper.GetSupply(ctx, "FX").Amount).Equal(pen) && r.Cfg.World.NoInflation {
